@@ -280,7 +280,11 @@ type Relay struct {
 	conns  []net.Conn
 	Accept int
 	First  []int // first client->server byte of every accepted connection (-1 = none seen yet)
+	frozen bool  // while set, relayed bytes are swallowed (the carrier stays open and goes silent)
 }
+
+// Freeze makes the carrier a black hole in both directions without closing it (nothing is forwarded while frozen).
+func (r *Relay) Freeze(on bool) { r.mu.Lock(); r.frozen = on; r.mu.Unlock() }
 
 func NewRelay(to string) (*Relay, error) {
 	ln, err := net.Listen("tcp", "127.0.0.1:0")
@@ -334,7 +338,11 @@ func (r *Relay) pipeIdx(from, to net.Conn, up bool, idx int) {
 			} else if !up && len(r.down) < 8<<20 {
 				r.down = append(r.down, buf[:n]...)
 			}
+			frozen := r.frozen
 			r.mu.Unlock()
+			if frozen {
+				continue
+			}
 			if _, werr := to.Write(buf[:n]); werr != nil {
 				break
 			}
@@ -552,6 +560,41 @@ type Rig struct {
 	closers  []func()
 	// ServerAddr is host:port of the server endpoint (tcp / udp carriers)
 	ServerAddr string
+	ups        upstream.Upstream
+	cc         cert.ClientConfig
+}
+
+// SecondClient starts another client process image (its own upstream object, session and listeners) against the same
+// server endpoint; not available on the standard-streams carriers.  dial connects an application to its listener.
+func (r *Rig) SecondClient() (dial func(channel string) (net.Conn, error), closeFn func(), err error) {
+	var ups upstream.Upstream
+	switch u := r.ups.(type) {
+	case *upstream.Socket:
+		ups = &upstream.Socket{Address: u.Address}
+	case *upstream.Http:
+		ups = &upstream.Http{Address: u.Address}
+	case *upstream.Packet:
+		ups = &upstream.Packet{Address: u.Address}
+	case *upstream.Dns:
+		ups = &upstream.Dns{Address: u.Address}
+	default:
+		return nil, nil, fmt.Errorf("no second client on carrier %s", r.Opts.Carrier)
+	}
+	addrs := map[string]string{}
+	var listeners listener.Listeners
+	for n := range r.Opts.Channels {
+		a := fmt.Sprintf("127.0.0.1:%d", freePort("tcp"))
+		addrs[n] = a
+		listeners = append(listeners, &listener.SocketListener{AbstractListener: listener.AbstractListener{
+			ProtoName: addr.ProtoName{Name: n}, Address: addr.MustParseAddress("tcp://" + a)}})
+	}
+	cli := &clientCmd.Command{ClientConfig: r.cc, Secure: r.Opts.MustSecure,
+		Upstream: upstream.Upstreams{Data: []upstream.Upstream{ups}}, ListenList: listeners}
+	if err := cli.Startup(make(chan os.Signal, 1)); err != nil {
+		return nil, nil, err
+	}
+	return func(ch string) (net.Conn, error) { return net.DialTimeout("tcp", addrs[ch], 5*time.Second) },
+		func() { defer func() { _ = recover() }(); _ = cli.Shutdown() }, nil
 }
 
 func freePort(network string) int {
@@ -703,6 +746,8 @@ func NewRig(o RigOpts) (*Rig, error) {
 		r.ServerAddr = s.Address.Host
 	case *server.PacketServer:
 		r.ServerAddr = s.Address.Host
+	case *server.DnsServer:
+		r.ServerAddr = s.Address.Host
 	}
 	r.srv = &serverCmd.Command{Channels: channels, Servers: server.Servers{srv}}
 	if err := r.srv.Startup(r.intr); err != nil {
@@ -743,6 +788,7 @@ func NewRig(o RigOpts) (*Rig, error) {
 	if o.ClientCA {
 		cc.Config.CaCertificate = cs.caPEM
 	}
+	r.ups, r.cc = ups, cc
 	r.cli = &clientCmd.Command{ClientConfig: cc, Secure: o.MustSecure,
 		Upstream: upstream.Upstreams{Data: []upstream.Upstream{ups}}, ListenList: listeners}
 	if err := r.cli.Startup(r.intr); err != nil {
